@@ -1,4 +1,6 @@
 """C15 — server-sent events are delivered exactly regardless of line endings and splits."""
+import re
+
 from .. import core, sx
 from ..areas import httpparse as hp
 from ..extract import httpparse as xhp
@@ -71,6 +73,8 @@ class C15(core.Check):
                 sts = []
                 for _ in range(rng.choice([2, 2, 3, 4])):
                     st = hp.gen_sse_stream(rng, invalid_utf8=rng.random() < 0.1)
+                    # the real Client waits `retry` ms of (virtual) time before it reconnects: keep it within the run
+                    st = re.sub(rb"(retry: ?)\d{5,}", rb"\g<1>70", st)
                     mode = "close" if rng.random() < 0.65 else "chunked"
                     sizes = tuple(rng.choice([1, 2, 3, 7, 16, 40]) for _ in range(rng.randrange(0, 6)))
                     w = hp.sser_wire(mode, st, sizes)
